@@ -14,5 +14,4 @@ for p in "$@"; do
   echo "== $name $p rc=$rc: $(echo "$out" | grep -E 'VIOLATION|KNOWN' | head -3)"
   if [ $rc -ne 0 ]; then f=$(echo "$out" | grep -o 'replay=[^ ]*' | head -1 | cut -d= -f2); [ -n "$f" ] && cp $f /tmp/seed/$name-$p.replay.json; fi
 done
-rm -rf /dev/shm/walrus-verif-*
 git -C /repo worktree remove --force $wt
